@@ -451,7 +451,7 @@ Lemma ctl_read_exact c w a n pre b m post :
 Proof.
   intros Ho Hma Hmc Hid HR Hconf Hri Ha H64. pose proof Hri as [_ [_ [Hn0 _]]].
   unfold ctl_read. unfold bindM at 1. unfold assert_open. cbn [fst]. rewrite Ho.
-  unfold bindM at 1. unfold verify_range. destruct (2 ^ 64 <? a + n) eqn:EV; [lia|]. unfold ret at 1.
+  unfold bindM at 1. unfold verify_range. destruct (a <? 0) eqn:EV0; [lia|]. destruct (2 ^ 64 <? a + n) eqn:EV; [lia|]. cbn [orb]. unfold ret at 1.
   unfold bindM at 1. unfold get_ctl. cbn [fst].
   unfold bindM at 1. unfold lift at 1. unfold read_chunks_init.
   destruct (c_max_ack c <=? ACK_HEADER_LENGTH) eqn:E; [unfold ACK_HEADER_LENGTH in E; lia|].
@@ -724,7 +724,7 @@ Lemma ctl_write_exact c w a data pre b m post :
 Proof.
   intros Ho Hmc Hid HR Hconf Hbytes Hri Ha H64.
   unfold ctl_write. unfold bindM at 1. unfold assert_open. cbn [fst]. rewrite Ho.
-  unfold bindM at 1. unfold verify_range. destruct (2 ^ 64 <? a + zlen data) eqn:EV; [lia|]. unfold ret at 1.
+  unfold bindM at 1. unfold verify_range. destruct (a <? 0) eqn:EV0; [lia|]. destruct (2 ^ 64 <? a + zlen data) eqn:EV; [lia|]. cbn [orb]. unfold ret at 1.
   unfold bindM at 1. unfold get_ctl. cbn [fst].
   destruct (write_blocks_ok a (zlen data) pre b post (c_retry c) (c_max_cmd c - 20) (S (length data)) c w m a data
               Hri Hbytes ltac:(lia) ltac:(lia) ltac:(lia) ltac:(lia) H64 Ha Hid eq_refl HR Hconf ltac:(lia))
